@@ -26,6 +26,7 @@ def case_iterate_local(log, order):
     ns, sg, ei, as4, ad = kernel_modules()
     log.encode(sg.eko_iterate, ad.exp_matrix_2D)
     rp = (MOD, "replay_iterate", {"order": order})
+    log.register_replay("fallback:replay_iterate", rp, _sampler)
 
     def run():
         jetmod.set_cap(5)
@@ -71,6 +72,7 @@ def case_uvec(log, K):
     ns, sg, ei, as4, ad = kernel_modules()
     log.encode(sg.u_vec, ad.exp_matrix_2D)
     rp = (MOD, "replay_uvec", {"K": K})
+    log.register_replay("fallback:replay_uvec", rp, _sampler)
 
     def run():
         r = realnp.empty((K + 1, 2, 2), dtype=object)
@@ -102,6 +104,7 @@ def case_rvec(log, order, M, is_exact):
     ns, sg, ei, as4, ad = kernel_modules()
     log.encode(sg.r_vec)
     rp = (MOD, "replay_rvec", {"order": order, "M": M, "is_exact": is_exact})
+    log.register_replay("fallback:replay_rvec", rp, _sampler)
 
     def run():
         jetmod.set_cap(M + 1)
@@ -137,6 +140,7 @@ def case_qed_step(log, order, dim, steps=1):
     log.encode(sq.eko_iterate, vq.dispatcher, sq.dispatcher)
     oq, oe = order
     rp = (MOD, "replay_qed", {"order": list(order), "dim": dim, "steps": steps})
+    log.register_replay("fallback:replay_qed", rp, _sampler)
 
     def run():
         jetmod.set_cap(5)
